@@ -14,7 +14,7 @@ from ..seeds import H, rng
 
 PROP = "C13"
 
-_TOKEN = re.compile(r"TK[MCFPRXA][0-9]{4}Z")
+_TOKEN = re.compile(r"TK[MCFPRXAN][0-9]{4}Z")
 _DECL = re.compile(r'^\s*(?:@PythonName\("(?P<pn>[^"]*)"\)\s+)?(?:static\s+)?(?P<kind>class|fun|attr|enum)\s+`?(?P<name>[A-Za-z_][A-Za-z0-9_]*)`?')
 _PYNAME_LINE = re.compile(r'^\s*@PythonName\("([^"]*)"\)\s*$')
 
@@ -80,6 +80,8 @@ def _home_names(info: dict, aliases: dict | None = None) -> tuple[set[str], set[
 def _home_names0(info: dict) -> tuple[set[str], set[str]]:
     kind, owner, name = info["kind"], info["owner"], info.get("name", "")
     segs = owner.split(".")
+    if kind == "N":
+        return set(), set()  # text of a string literal that documents no element: must not show up anywhere
     if kind == "M":
         return {"module"}, {""}
     if kind == "C":
